@@ -12,7 +12,7 @@ Proof.
   intros flt cf p d r oc d' r' n H Hno Hcf. unfold with_conn in H.
   destruct (run flt (seqP (ex pragma_fk) p) (mkSt d r 0)) as [res s].
   destruct res as [a|e].
-  - destruct cf; inversion H; subst; try reflexivity.
+  - destruct cf as [| | |e1]; [| | |destruct e1]; inversion H; subst; try reflexivity.
     + exfalso. eapply Hno. reflexivity.
     + congruence.
   - destruct e; inversion H; reflexivity.
@@ -66,9 +66,9 @@ Proof.
       intro ps. apply readonly_bind; [exact IH|]. intro; exact I.
   - apply readonly_bind; [|intro; exact I]. apply readonly_ex. intros d b d' E. unfold sel_types in E.
     destruct (missing t); inversion E; auto.
-  - apply readonly_bind; [|intro; exact I]. unfold iso_get. apply readonly_bind.
+  - apply readonly_bind; [|intro; exact I]. unfold iso_get, iso_get_n. apply readonly_bind.
     + apply readonly_ex. intros d b d' E. inversion E; auto.
-    + intro rs. generalize (chunks (S (length rs)) 100 rs). intro cs. induction cs as [|ch cs IH]; [exact I|].
+    + intro rs. generalize (chunks (S (length rs)) iso_batch rs). intro cs. induction cs as [|ch cs IH]; [exact I|]. cbn [iso_get_chunks].
       apply readonly_bind; [apply readonly_ex; intros d b d' E; inversion E; auto|]. intro ps.
       apply readonly_bind; [apply readonly_ex; intros d b d' E; inversion E; auto|]. intro ds.
       apply readonly_bind; [exact IH|]. intro; exact I.
@@ -205,8 +205,8 @@ Proof.
     apply regblind_bind; [apply regblind_ex|]. intro. apply regblind_bind.
     + apply regblind_for. intro; apply regblind_ex.
     + intro. apply regblind_for. intros [[ty dty] data]. apply regblind_ex.
-  - apply regblind_bind; [|intro; exact I]. unfold iso_get. apply regblind_bind; [apply regblind_ex|]. intro rs.
-    generalize (chunks (S (length rs)) 100 rs). intro cs. induction cs as [|ch cs IH]; [exact I|].
+  - apply regblind_bind; [|intro; exact I]. unfold iso_get, iso_get_n. apply regblind_bind; [apply regblind_ex|]. intro rs.
+    generalize (chunks (S (length rs)) iso_batch rs). intro cs. induction cs as [|ch cs IH]; [exact I|]. cbn [iso_get_chunks].
     apply regblind_bind; [apply regblind_ex|]. intro ps. apply regblind_bind; [apply regblind_ex|]. intro ds.
     apply regblind_bind; [exact IH|]. intro; exact I.
   - apply regblind_bind; [|intro; exact I]. unfold iso_delete. apply regblind_bind; [apply regblind_ex|]. intros [|]; [|exact I].
